@@ -28,7 +28,7 @@ TRUSTED = ["Lean 4.33 kernel; standard axioms only", "model JP/Patch.lean tied t
 ASSUMPTIONS = ["documents are trees (no aliasing) of JSON-shaped values", "patches are given as parsed values (lists of dicts)"]
 
 VALUES = [9, "v", [1], {"k": None}, True, None]
-EXT_TOKENS = ["x", "0", "1", "-", "01", "", "a", "-1", "#0", "2"]
+EXT_TOKENS = ["x", "0", "1", "-", "01", "", "a", "-1", "#0", "2", "-0", "+0", "00"]
 
 
 def docs_universe():
@@ -39,6 +39,7 @@ def docs_universe():
         {"01": 1, "0": [0]}, [[[]]], {"a": 1, "b": 2, "c": 3}, 5, None, True, {"+1": 1, "-1": 2},
         {"n": {"a": None}, "m": [None, {"x": None, "y": 0}], "z": None},
         {"a": {"k": 1}, "ab": {"x": 2}, "1": "x", "10": {"y": 0}, "user": {"id": 1}, "users": {}},     # names that are string prefixes of a sibling's name
+        {"-0": "minus zero", "0": "zero", "+0": "plus zero", "00": "double zero", "a": [1, 2]},          # spellings of zero that are member names, not indices
         {"tags": ["a", "b"], "s": "ab", "e": "", "l": [], "n": [["x", "y"], "xy"]},                      # strings next to the arrays of their characters
     ]
     return ds
